@@ -1873,3 +1873,130 @@ func cellOfFreeVarIsParam(fv *ssa.FreeVar, p *ssa.Parameter) bool {
 	}
 	return false
 }
+
+// decoderErrorReviewed: plain errors that cannot occur on the decode path (one function each).
+var decoderErrorReviewed = map[string]string{
+	"(*pkg/packet/bgp.PathAttributeExtendedCommunities).DecodeFromBytes":    "ParseExtended → NewIPv4AddressSpecificExtended refuses a non-IPv4 address, but is handed netip.AddrFromSlice of exactly four octets",
+	"(*pkg/packet/bgp.PathAttributeIP6ExtendedCommunities).DecodeFromBytes": "ParseIP6Extended → NewIPv6AddressSpecificExtended refuses a non-IPv6 address, but is handed netip.AddrFromSlice of exactly sixteen octets",
+}
+
+// ruleDecoderErrorType: attribute decoders only return errors of the type their caller asserts.
+func (c *Ctx) ruleDecoderErrorType(rule string, min int) {
+	r := c.R
+	r.Rule(rule, "BGPUpdate.DecodeFromBytes asserts every error a path-attribute decoder returns to *MessageError without the comma-ok form; so every non-nil error returned by a DecodeFromBytes method of a path-attribute type originates (through phis and through the module functions it is propagated from) in NewMessageError / NewMessageErrorWithErrorHandling — a plain fmt.Errorf or a constructor's validation error reaching that assertion panics the receive goroutine", min)
+	pk := c.P.Pkg("pkg/packet/bgp")
+	if pk == nil {
+		r.Undec(rule, "-", "anchor:pkg/packet/bgp", "-", "not found")
+		return
+	}
+	memo := map[*ssa.Function]string{}
+	var fnOK func(fn *ssa.Function, depth int) string
+	var valOK func(v ssa.Value, depth int, seen map[ssa.Value]bool) string
+	valOK = func(v ssa.Value, depth int, seen map[ssa.Value]bool) string {
+		if seen[v] {
+			return ""
+		}
+		seen[v] = true
+		switch x := v.(type) {
+		case *ssa.Const:
+			return ""
+		case *ssa.Phi:
+			for _, e := range x.Edges {
+				if why := valOK(e, depth, seen); why != "" {
+					return why
+				}
+			}
+			return ""
+		case *ssa.MakeInterface:
+			if n := ir.NamedOf(ir.Deref(x.X.Type())); n != nil && n.Obj().Name() == "MessageError" {
+				return ""
+			}
+			return "a value of type " + shortType(x.X.Type())
+		case *ssa.ChangeInterface:
+			return valOK(x.X, depth, seen)
+		case *ssa.Extract:
+			if call, ok := x.Tuple.(*ssa.Call); ok {
+				return valOK(call, depth, seen)
+			}
+			return "an unknown tuple element"
+		case *ssa.UnOp:
+			// named result / local error variable: every store
+			if al, ok := x.X.(*ssa.Alloc); ok && al.Referrers() != nil {
+				for _, ref := range *al.Referrers() {
+					if st, ok := ref.(*ssa.Store); ok && st.Addr == ssa.Value(al) {
+						if why := valOK(st.Val, depth, seen); why != "" {
+							return why
+						}
+					}
+				}
+				return ""
+			}
+			return "a loaded value"
+		case *ssa.Call:
+			if x.Call.IsInvoke() {
+				if x.Call.Method.Name() == "DecodeFromBytes" || x.Call.Method.Name() == "decodeFromBytes" {
+					return "" // another decoder of the package (checked on its own if it is an attribute decoder)
+				}
+				return "the result of the interface call " + x.Call.Method.Name()
+			}
+			cal := x.Call.StaticCallee()
+			if cal == nil {
+				return "the result of a dynamic call"
+			}
+			if cal.Name() == "NewMessageError" || cal.Name() == "NewMessageErrorWithErrorHandling" {
+				return ""
+			}
+			if !c.P.InModule(cal) || cal.Blocks == nil {
+				return "the result of " + cal.String()
+			}
+			return fnOK(cal, depth+1)
+		}
+		return fmt.Sprintf("a %T", v)
+	}
+	fnOK = func(fn *ssa.Function, depth int) string {
+		if why, ok := memo[fn]; ok {
+			return why
+		}
+		if depth > 6 {
+			return ""
+		}
+		memo[fn] = ""
+		why := ""
+		for _, b := range fn.Blocks {
+			ret, ok := b.Instrs[len(b.Instrs)-1].(*ssa.Return)
+			if !ok || len(ret.Results) == 0 {
+				continue
+			}
+			ev := ret.Results[len(ret.Results)-1]
+			if n, ok := ev.Type().(*types.Named); !ok || n.Obj().Name() != "error" {
+				continue
+			}
+			if w := valOK(ev, depth, map[ssa.Value]bool{}); w != "" {
+				why = fn.Name() + " returns " + w + " (" + c.P.InstrPos(ret) + ")"
+				break
+			}
+		}
+		memo[fn] = why
+		return why
+	}
+	n := 0
+	for _, fn := range c.P.FuncsIn("pkg/packet/bgp") {
+		if fn.Parent() != nil || fn.Blocks == nil || fn.Name() != "DecodeFromBytes" || fn.Signature.Recv() == nil {
+			continue
+		}
+		named := ir.NamedOf(ir.Deref(fn.Signature.Recv().Type()))
+		if named == nil || !strings.HasPrefix(named.Obj().Name(), "PathAttribute") {
+			continue
+		}
+		n++
+		fk := ir.FuncKey(fn)
+		why := fnOK(fn, 0)
+		if rev, ok := decoderErrorReviewed[fk]; ok && why != "" {
+			r.Except(rule, fk, "returned errors", c.P.Pos(fn.Pos()), rev)
+		} else if why == "" {
+			r.Ok(rule, fk, "returned errors", c.P.Pos(fn.Pos()), "all *MessageError")
+		} else {
+			r.Bad(rule, fk, "returned errors", c.P.Pos(fn.Pos()), "an error that is not a *MessageError can reach BGPUpdate.DecodeFromBytes' unchecked assertion: "+why)
+		}
+	}
+}
